@@ -554,9 +554,11 @@ class SchemaMaker:
             # Serious Design Error...
             raise ValueError(f"Unknown {source['type']=!r} in {source}")
 
-        self.name_cache[source.get("$anchor", source.get("title", "*UNNAMED*"))] = (
-            schema
-        )
+        if not isinstance(schema, RefToSchema) or "$anchor" in source:
+            # A reference is not a definition: its title must not shadow the name it refers to.
+            self.name_cache[
+                source.get("$anchor", source.get("title", "*UNNAMED*"))
+            ] = schema
         return schema
 
     def resolve(self, schema: Schema) -> Schema:
